@@ -147,8 +147,12 @@ namespace ST
             ST::uint_formatter<unsigned int> formatter;
             formatter.format(num < 0 ? 0 - static_cast<unsigned int>(num)
                                      : static_cast<unsigned int>(num), 10, false);
-            if (num < 0)
+            if (num < 0) {
+                // Make room for the sign and the digits at once, so a failed
+                // allocation cannot leave a lone sign behind
+                expand_buffer(formatter.size() + 1);
                 append_char('-');
+            }
             return append(formatter.text(), formatter.size());
         }
 
@@ -164,8 +168,12 @@ namespace ST
             ST::uint_formatter<unsigned long> formatter;
             formatter.format(num < 0 ? 0 - static_cast<unsigned long>(num)
                                      : static_cast<unsigned long>(num), 10, false);
-            if (num < 0)
+            if (num < 0) {
+                // Make room for the sign and the digits at once, so a failed
+                // allocation cannot leave a lone sign behind
+                expand_buffer(formatter.size() + 1);
                 append_char('-');
+            }
             return append(formatter.text(), formatter.size());
         }
 
@@ -181,8 +189,12 @@ namespace ST
             ST::uint_formatter<unsigned long long> formatter;
             formatter.format(num < 0 ? 0 - static_cast<unsigned long long>(num)
                                      : static_cast<unsigned long long>(num), 10, false);
-            if (num < 0)
+            if (num < 0) {
+                // Make room for the sign and the digits at once, so a failed
+                // allocation cannot leave a lone sign behind
+                expand_buffer(formatter.size() + 1);
                 append_char('-');
+            }
             return append(formatter.text(), formatter.size());
         }
 
